@@ -189,7 +189,30 @@ def main(argv=None):
             records.append({'prop': prop, 'idx': -1, 'status': 'inconclusive', 'inconclusive': ['worker %d: %s' % (s, why)],
                             'stats': {'worker_crash': 1}})
 
+    if (tier == 'thorough' or os.environ.get('EAOMON_SUITE')) and getattr(driver, 'SUITE_UNDER_MONITORS', False):
+        records += suite_under_monitors(prop)
     return finish(driver, prop, tier, base_seed, records, summaries, known, time.time() - t_start)
+
+
+def suite_under_monitors(prop, timeout=1500):
+    """The repository's own test suite as an extra workload: every test runs with the passive monitors of `prop` attached."""
+    outf = tempfile.mktemp(prefix='suite_%s_' % prop, suffix='.jsonl', dir=os.path.join(env.VERIF, 'replays') if os.path.isdir(os.path.join(env.VERIF, 'replays')) else None)
+    penv = dict(os.environ)
+    penv.update({'EAOMON_PROP': prop, 'EAOMON_OUT': outf, 'PYTHONHASHSEED': '0', 'PYTHONPATH': env.VERIF + os.pathsep + penv.get('PYTHONPATH', ''), 'EAO_REPO': env.REPO})
+    recs = []
+    try:
+        subprocess.run([sys.executable, '-m', 'pytest', '-q', '-p', 'no:cacheprovider', '-p', 'eaomon.pytest_plugin', '--timeout=900', 'tests'],
+                       cwd=env.REPO, env=penv, stdout=subprocess.DEVNULL, stderr=subprocess.DEVNULL, timeout=timeout)
+    except subprocess.TimeoutExpired:
+        recs.append({'prop': prop, 'idx': -2, 'status': 'inconclusive', 'inconclusive': ['suite under monitors: watchdog'], 'stats': {}})
+    if os.path.exists(outf):
+        for line in open(outf):
+            try:
+                recs.append(json.loads(line))
+            except Exception:
+                pass
+        os.remove(outf)
+    return recs
 
 
 def finish(driver, prop, tier, base_seed, records, summaries, known, wall):
